@@ -33,6 +33,10 @@ def _hmac_sha256_digest(key, message):
     return hmac.new(key, message, hashlib.sha256).digest()
 
 
+def _quote_all(string, safe='', encoding=None, errors=None):
+    return quote(string, safe='', encoding=encoding, errors=errors)
+
+
 def _make_signature_key(*, key, date, region, service):
     date_key = _hmac_sha256_digest(b'AWS4' + key.encode(), date.encode())
     date_region_key = _hmac_sha256_digest(date_key, region.encode())
@@ -138,7 +142,9 @@ class S3Compatible(Backend, short_name='S3C'):
         encoded_canonical_uri = quote(canonical_uri)
         url = self.url + encoded_canonical_uri
         if query:
-            query_string = urlencode(sorted(query.items()))
+            # Signature Version 4 wants spaces as %20 in the canonical query string,
+            # the default quote_plus would produce (and sign) a plus sign
+            query_string = urlencode(sorted(query.items()), quote_via=_quote_all)
             url += f'?{query_string}'
         else:
             query_string = ''
